@@ -108,3 +108,10 @@ Theorem C02_push_ok_below_limit : forall c ops s0 s a ws o s' l,
   step c s o = (s', ROk) -> b_limit s = Some l -> mlen (w_buf (b_w s')) < l.
 Proof. exact push_ok_below_limit. Qed.
 Print Assumptions C02_push_ok_below_limit.
+
+(* AdditionalBuilder::opt puts the header RCODE back when the push fails (T1:
+   read from the source); without it C02_failed_push_unchanged is false, see
+   failed_opt_push_refuted in ProofsTotal.v. *)
+Theorem C02_opt_restores_header_rcode : opt_restores_rcode_on_err = true.
+Proof. exact restore_flag. Qed.
+Print Assumptions C02_opt_restores_header_rcode.
